@@ -171,7 +171,37 @@ func (w *World) pairHelperOf(fn *ssa.Function) *pairHelper {
 				return
 			}
 			for i := 0; i < 2; i++ {
-				recv, ok := isMethodCall(ret.Results[i], "Number")
+				res := ret.Results[i]
+				// a wrapper around Number(): every return of it is Number() of its only parameter
+				if c, isCall := res.(*ssa.Call); isCall {
+					if g := staticCallee(c); g != nil && fnPkgKey(g) == "exec" && len(g.Params) == 1 && len(c.Call.Args) == 1 {
+						all, nret := true, 0
+						allInstrs(g, func(gin ssa.Instruction) {
+							gr, ok := gin.(*ssa.Return)
+							if !ok {
+								return
+							}
+							nret++
+							rv, ok := isMethodCall(gr.Results[0], "Number")
+							if !ok || rv != ssa.Value(g.Params[0]) {
+								all = false
+							}
+						})
+						if all && nret > 0 {
+							if ex, ok := c.Call.Args[0].(*ssa.Extract); ok && ex.Tuple == ssa.Value(base) {
+								if ex.Index == ph.Base.LeftResult {
+									ph.LeftResult = i
+								} else if ex.Index == ph.Base.RightResult {
+									ph.RightResult = i
+								}
+								continue
+							}
+						}
+						ph.err = "DECIDED-VIOLATED: the operand is converted by " + g.Name() + ", which is not Result.Number() on every path (the number of a node-set is the number of the string-value of its first node in document order; of a boolean 0/1; of a string the XPath number syntax)"
+						return
+					}
+				}
+				recv, ok := isMethodCall(res, "Number")
 				if !ok {
 					ph.err = "numeric result is not Number() of an operand"
 					return
